@@ -24,7 +24,7 @@ import (
 
 // C14 - concurrent RPCs are isolated from one another and race-free.
 
-const ruleC14 = "rapid draws batches of 2..24 scenarios (C01/C03/C09 generators: mixed client forms, codecs, compressions, distinct payloads, failing and faulty requests) that run concurrently on ONE Transcoder, in a generated start order with generated GOMAXPROCS, plus full-duplex streams whose request body is a pipe fed by a client goroutine while the handler reads and writes from two different goroutines, optionally with an invalid envelope or a cut injected on the request side while the response side is busy. The binary is built with -race; the instrumented poisoning buffer pool (tag verif) is active. Half of the batches start with a sequential prelude of requests that fail inside the transcoder (corrupt gzip headers) before the others run concurrently, some with every RPC inflating; compressor and decompressor objects are bookkeeping wrappers registered through WithCompression (in use from Reset to Close). Solo reference runs use the ordinary pool, the concurrent phase the poisoning one. Oracle: (0) no (de)compressor object is Reset while in use; (1) every RPC's canonical outcome equals its solo run on a fresh Transcoder; (2) the race detector log gains no report whose stacks contain frames of package vanguard (reports are parsed into call-site pairs and matched against known findings); (3) pool bookkeeping: no double release, no hand-out of a live buffer, no write after release. Non-trivial = at least two overlapping RPCs that used pooled buffers, or a duplex stream with a fault on one side while the other side moved data; distinct by hash(batch)."
+const ruleC14 = "rapid draws batches of 2..24 scenarios (C01/C03/C09 generators: mixed client forms, codecs, compressions, distinct payloads, failing and faulty requests) that run concurrently on ONE Transcoder, in a generated start order with generated GOMAXPROCS, plus full-duplex streams whose request body is a pipe fed by a client goroutine while the handler reads and writes from two different goroutines, optionally with an invalid envelope or a cut injected on the request side while the response side is busy. The binary is built with -race; the instrumented poisoning buffer pool (tag verif) is active. Half of the batches start with a sequential prelude of requests that fail inside the transcoder (corrupt gzip headers, or messages that inflate past the size limit from a few hundred bytes - then mostly with GOMAXPROCS=1) before the others run concurrently, some with every RPC inflating; compressor and decompressor objects are bookkeeping wrappers registered through WithCompression (in use from Reset to Close). Solo reference runs use the ordinary pool, the concurrent phase the poisoning one. Oracle: (0) no (de)compressor object is Reset while in use; (1) every RPC's canonical outcome equals its solo run on a fresh Transcoder; (2) the race detector log gains no report whose stacks contain frames of package vanguard (reports are parsed into call-site pairs and matched against known findings); (3) pool bookkeeping: no double release, no hand-out of a live buffer, no write after release. Non-trivial = at least two overlapping RPCs that used pooled buffers, or a duplex stream with a fault on one side while the other side moved data; distinct by hash(batch)."
 
 type duplexSpec struct {
 	Form         string `json:"form"`   // connect_stream | grpc | grpcweb
